@@ -232,12 +232,56 @@ impl<'a> Typed<'a> {
     }
 }
 
+/// precedence parse of `leaf op leaf op ... leaf`: higher priority first, left to right among equals
+fn chain_tree(ops: &[usize], leaves: Vec<Tree>, table: &[crate::term::OpSpec]) -> Tree {
+    let prio = |o: usize| table[o].bin.unwrap().0;
+    let mut operands: Vec<Tree> = vec![];
+    let mut pending: Vec<usize> = vec![];
+    let reduce = |operands: &mut Vec<Tree>, o: usize| {
+        let b = operands.pop().unwrap();
+        let a = operands.pop().unwrap();
+        operands.push(Tree::Bin(o, Box::new(a), Box::new(b)));
+    };
+    let mut it = leaves.into_iter();
+    operands.push(it.next().unwrap());
+    for (o, leaf) in ops.iter().zip(it) {
+        while let Some(top) = pending.last() {
+            if prio(*top) >= prio(*o) {
+                let top = pending.pop().unwrap();
+                reduce(&mut operands, top);
+            } else {
+                break;
+            }
+        }
+        pending.push(*o);
+        operands.push(leaf);
+    }
+    while let Some(top) = pending.pop() {
+        reduce(&mut operands, top);
+    }
+    operands.pop().unwrap()
+}
+
 fn precedence_trees(tape: &[u32], st: &mut Stats) -> CaseResult {
     let mut t = Tape::new(tape);
     let table = val_table();
     let ty = Typed { table: &table };
     let n = 1 + t.choose(9);
-    let tree = if t.chance(25) { ty.boolean(&mut t, n.max(2)) } else { ty.int(&mut t, n) };
+    let long = t.chance(12);
+    let tree = if long {
+        // 21-45 operands joined on ONE nesting level by operators that cannot overflow on small
+        // integers; the tree is the precedence parse of the sequence (higher priority first,
+        // left to right among equals)
+        let n = 21 + t.choose(25);
+        let leaves: Vec<Tree> = (0..n).map(|_| ty.int(&mut t, 1)).collect();
+        let ops: Vec<usize> = (0..n - 1).map(|_| ty.ix(*t.pick(&["+", "-", "-", "|", "&", "XOR", "min", "max", "%", "-"]))).collect();
+        chain_tree(&ops, leaves, &table)
+    } else if t.chance(25) {
+        ty.boolean(&mut t, n.max(2))
+    } else {
+        ty.int(&mut t, n)
+    };
+    st.class_if(long, "more than 20 binary operators on one nesting level");
     let pool = VarPool { names: vec!["x".into(), "y".into(), "z".into()], bare_ok: vec![true; 3] };
     let rcfg = RenderCfg { call_pct: 15, redundant_paren_pct: 6, ..RenderCfg::default() };
     let (text, _toks, _info) = render(&tree, &table, &pool, &rcfg, &mut t);
@@ -256,10 +300,13 @@ fn precedence_trees(tape: &[u32], st: &mut Stats) -> CaseResult {
     }
     let text: &str = &text;
     let c = || json!({"text": text, "expected": show(&reference), "tree": tree_to_string(&tree, &table, &pool)});
-    for (what, compile) in [("parse_val", true), ("parse_wo_compile", false)] {
+    for (what, compile) in [("parse_val", 0), ("parse_wo_compile", 1), ("DeepEx<Val>::parse", 2)] {
         let r = guard(|| -> Result<V, String> {
-            let e = if compile { ex_msg(exmex::parse_val::<i32, f64>(text))? } else { ex_msg(exmex::FlatExVal::<i32, f64>::parse_wo_compile(text))? };
-            ex_msg(e.eval(&vals))
+            match compile {
+                0 => ex_msg(ex_msg(exmex::parse_val::<i32, f64>(text))?.eval(&vals)),
+                1 => ex_msg(ex_msg(exmex::FlatExVal::<i32, f64>::parse_wo_compile(text))?.eval(&vals)),
+                _ => ex_msg(ex_msg(exmex::DeepEx::<V, exmex::ValOpsFactory<i32, f64>, exmex::ValMatcher>::parse(text))?.eval(&vals)),
+            }
         });
         match r {
             Err(p) => return Err(fail(&format!("C16/precedence/{what}/panic"), format!("`{text}` panics: {p}"), c())),
@@ -300,7 +347,7 @@ pub fn def() -> PropDef {
             },
             SubCheck {
                 name: "precedence_trees",
-                rule: "tape -> typed tree (int: + - * | & XOR min max % << >> unary - abs, `a if c else b`; bool: comparisons, && || == !=) over the value table x rendering, via parse_val and parse_wo_compile; reference = the tree folded with the table's own functions; non-trivial = a commutative and a different operator of equal priority adjacent (10 - 2 + 3, x >> 1 | 2, a == b != c)",
+                rule: "tape -> typed tree (int: + - * | & XOR min max % << >> unary - abs, `a if c else b`; bool: comparisons, && || == !=) over the value table x rendering, via parse_val, parse_wo_compile and DeepEx<Val>::parse; 12% of the cases are 21-45 operands joined on one nesting level by + - | & XOR min max %; reference = the tree folded with the table's own functions; non-trivial = a commutative and a different operator of equal priority adjacent (10 - 2 + 3, x >> 1 | 2, a == b != c)",
                 kind: Kind::Tape { len: 300, quick: 40_000, thorough: 2_000_000, f: precedence_trees },
             },
         ],
